@@ -78,3 +78,100 @@ package scion
 //@   ensures result == (s.PathMeta.CurrINF > 0 && s.PathMeta.CurrHF > 0 && segOf(s.PathMeta.CurrHF-1, l0, l1) == s.PathMeta.CurrINF-1)
 
 //@ lemma xoverAtBoundary C19: forall hf uint8, l0 uint8, l1 uint8, l2 uint8 :: l0 <= 63 && l1 <= 63 && l2 <= 63 && shapeOK(l0, l1, l2) && int(hf)+1 < int(l0)+int(l1)+int(l2) ==> ((segOf(hf+1, l0, l1) != segOf(hf, l0, l1)) == (int(hf)+1 == int(l0) || int(hf)+1 == int(l0)+int(l1)))
+
+//@ # ---- Raw: data-structure invariant and byte-level views (also used by the router contracts)
+//@ macro rawInv(s) = (baseOK(s.PathMeta.SegLen[0], s.PathMeta.SegLen[1], s.PathMeta.SegLen[2], s.NumINF, s.NumHops) && s.PathMeta.CurrHF <= 63 && s.PathMeta.CurrINF <= 3 && len(s.Raw) == 4+s.NumINF*8+s.NumHops*12)
+//@ macro hopAt(h, raw, off) = (h.EgressRouterAlert == (raw[off]&1 == 1) && h.IngressRouterAlert == (raw[off]&2 == 2) && h.ExpTime == raw[off+1] && h.ConsIngress == uint16(raw[off+2])<<8|uint16(raw[off+3]) && h.ConsEgress == uint16(raw[off+4])<<8|uint16(raw[off+5]) && h.Mac[0] == raw[off+6] && h.Mac[1] == raw[off+7] && h.Mac[2] == raw[off+8] && h.Mac[3] == raw[off+9] && h.Mac[4] == raw[off+10] && h.Mac[5] == raw[off+11])
+//@ macro infoAt(f, raw, off) = (f.ConsDir == (raw[off]&1 == 1) && f.Peer == (raw[off]&2 == 2) && f.SegID == uint16(raw[off+2])<<8|uint16(raw[off+3]) && f.Timestamp == uint32(raw[off+4])<<24|uint32(raw[off+5])<<16|uint32(raw[off+6])<<8|uint32(raw[off+7]))
+//@ macro infoBytes(raw, off, f) = (raw[off] == ite(f.ConsDir, 1, 0)|ite(f.Peer, 2, 0) && raw[off+1] == 0 && raw[off+2] == uint8(f.SegID>>8) && raw[off+3] == uint8(f.SegID) && raw[off+4] == uint8(f.Timestamp>>24) && raw[off+5] == uint8(f.Timestamp>>16) && raw[off+6] == uint8(f.Timestamp>>8) && raw[off+7] == uint8(f.Timestamp))
+//@ macro hopBytes(raw, off, h) = (raw[off] == ite(h.EgressRouterAlert, 1, 0)|ite(h.IngressRouterAlert, 2, 0) && raw[off+1] == h.ExpTime && raw[off+2] == uint8(h.ConsIngress>>8) && raw[off+3] == uint8(h.ConsIngress) && raw[off+4] == uint8(h.ConsEgress>>8) && raw[off+5] == uint8(h.ConsEgress) && raw[off+6] == h.Mac[0] && raw[off+7] == h.Mac[1] && raw[off+8] == h.Mac[2] && raw[off+9] == h.Mac[3] && raw[off+10] == h.Mac[4] && raw[off+11] == h.Mac[5])
+//@ macro metaBytes(raw, m) = (raw[0] == m.CurrINF<<6|m.CurrHF&0x3f && raw[1] == (m.SegLen[0]&0x3f)>>4 && raw[2] == (m.SegLen[0]&0xf)<<4|(m.SegLen[1]&0x3f)>>2 && raw[3] == (m.SegLen[1]&0x3)<<6|m.SegLen[2]&0x3f)
+
+//@ func (*Raw).DecodeFromBytes
+//@   props C19 C18
+//@   let l0 = (data[1]&0x3)<<4|data[2]>>4
+//@   let l1 = (data[2]&0xf)<<2|data[3]>>6
+//@   let l2 = data[3]&0x3f
+//@   let n = 4+numSegs(l0, l1, l2)*8+(int(l0)+int(l1)+int(l2))*12
+//@   modifies *s
+//@   ensures (result == nil) == (len(data) >= 4 && shapeOK(l0, l1, l2) && len(data) >= n)
+//@   ensures result == nil ==> rawInv(s) && s.Raw == data[:n]
+//@   ensures result == nil ==> s.PathMeta.CurrINF == data[0]>>6 && s.PathMeta.CurrHF == data[0]&0x3f && s.PathMeta.SegLen[0] == l0 && s.PathMeta.SegLen[1] == l1 && s.PathMeta.SegLen[2] == l2
+
+//@ func (*Raw).GetInfoField
+//@   props C19 C01
+//@   requires rawInv(s) && idx >= 0
+//@   modifies nothing
+//@   ensures (result1 == nil) == (idx < s.NumINF)
+//@   ensures result1 == nil ==> infoAt(result0, s.Raw, 4+idx*8)
+
+//@ func (*Raw).GetCurrentInfoField
+//@   props C19 C01
+//@   requires rawInv(s)
+//@   modifies nothing
+//@   ensures (result1 == nil) == (int(s.PathMeta.CurrINF) < s.NumINF)
+//@   ensures result1 == nil ==> infoAt(result0, s.Raw, 4+int(s.PathMeta.CurrINF)*8)
+
+//@ func (*Raw).GetHopField
+//@   props C19 C01
+//@   requires rawInv(s) && idx >= 0
+//@   modifies nothing
+//@   ensures (result1 == nil) == (idx < s.NumHops)
+//@   ensures result1 == nil ==> hopAt(result0, s.Raw, 4+s.NumINF*8+idx*12)
+
+//@ func (*Raw).GetCurrentHopField
+//@   props C19 C01
+//@   requires rawInv(s)
+//@   modifies nothing
+//@   ensures (result1 == nil) == (int(s.PathMeta.CurrHF) < s.NumHops)
+//@   ensures result1 == nil ==> hopAt(result0, s.Raw, 4+s.NumINF*8+int(s.PathMeta.CurrHF)*12)
+
+//@ func (*Raw).SetInfoField
+//@   props C19 C07 C22
+//@   requires rawInv(s) && idx >= 0
+//@   modifies s.Raw[:]
+//@   ensures (result == nil) == (idx < s.NumINF)
+//@   ensures result == nil ==> infoBytes(s.Raw, 4+idx*8, info)
+//@   ensures forall i int :: 0 <= i && i < len(s.Raw) && (result != nil || i < 4+idx*8 || i >= 12+idx*8) ==> s.Raw[i] == old(s.Raw[i])
+
+//@ func (*Raw).SetHopField
+//@   props C19 C07
+//@   requires rawInv(s) && idx >= 0
+//@   modifies s.Raw[:]
+//@   ensures (result == nil) == (idx < s.NumHops)
+//@   ensures result == nil ==> hopBytes(s.Raw, 4+s.NumINF*8+idx*12, hop)
+//@   ensures forall i int :: 0 <= i && i < len(s.Raw) && (result != nil || i < 4+s.NumINF*8+idx*12 || i >= 16+s.NumINF*8+idx*12) ==> s.Raw[i] == old(s.Raw[i])
+
+//@ func (*Raw).IncPath
+//@   props C19 C07
+//@   let l0 = s.PathMeta.SegLen[0]
+//@   let l1 = s.PathMeta.SegLen[1]
+//@   let hf = s.PathMeta.CurrHF
+//@   requires rawInv(s)
+//@   modifies s.PathMeta, s.Raw[:]
+//@   ensures (result == nil) == (int(hf)+1 < s.NumHops)
+//@   ensures result == nil ==> s.PathMeta.CurrHF == hf+1 && s.PathMeta.CurrINF == segOf(hf+1, l0, l1) && metaBytes(s.Raw, s.PathMeta)
+//@   ensures s.PathMeta.SegLen == old(s.PathMeta.SegLen)
+//@   ensures forall i int :: 4 <= i && i < len(s.Raw) ==> s.Raw[i] == old(s.Raw[i])
+//@   ensures result != nil ==> forall i int :: 0 <= i && i < len(s.Raw) ==> s.Raw[i] == old(s.Raw[i])
+
+//@ func (*Raw).IsFirstHop
+//@   props C19
+//@   modifies nothing
+//@   ensures result == (s.PathMeta.CurrHF == 0)
+
+//@ func (*Raw).IsPenultimateHop
+//@   props C19
+//@   modifies nothing
+//@   ensures result == (int(s.PathMeta.CurrHF) == s.NumHops-2)
+
+//@ func (*Raw).IsLastHop
+//@   props C19
+//@   modifies nothing
+//@   ensures result == (int(s.PathMeta.CurrHF) == s.NumHops-1)
+
+//@ func (*Raw).CurrINFMatchesCurrHF
+//@   props C19
+//@   requires s.PathMeta.SegLen[0] <= 63 && s.PathMeta.SegLen[1] <= 63
+//@   modifies nothing
+//@   ensures result == (s.PathMeta.CurrINF == segOf(s.PathMeta.CurrHF, s.PathMeta.SegLen[0], s.PathMeta.SegLen[1]))
